@@ -240,6 +240,16 @@ func init() {
 		Uses: []core.Use{{E: eCrash, Quick: 60, Thorough: 2000}, {E: eReopen, Quick: 60, Thorough: 1500}, {E: &core.Engine{Name: "fsync-order", Run: RunFsyncOrder}, Quick: 12, Thorough: 400}},
 	})
 
+	// concurrent variants of sequentially stated clauses: a few concurrent histories in the checks whose statement they can break
+	eConcCat := &core.Engine{Name: "conc-catalog", Run: RunConcCatalog}
+	for id, n := range map[string][2]int{"C13": {80, 1500}, "C19": {40, 800}} {
+		core.Registry[id].Uses = append(core.Registry[id].Uses, core.Use{E: eConcCat, Quick: n[0], Thorough: n[1]})
+		core.Registry[id].Rule += " Plus concurrent creations/imports of one collection name by 2-6 goroutines (exactly one may succeed, nothing acknowledged may be lost)."
+	}
+	for id, n := range map[string][2]int{"C06": {120, 2000}, "C12": {120, 2000}} {
+		core.Registry[id].Uses = append(core.Registry[id].Uses, core.Use{E: eConc, Quick: n[0], Thorough: n[1]})
+		core.Registry[id].Rule += " Plus concurrent histories (contended caller-supplied ids, concurrent deletes of one id) checked for linearizability and audited at quiescence."
+	}
 	// the directed scenario library runs in every check; a scenario that does not guard the property is a no-op
 	eDirected := &core.Engine{Name: "directed", Run: RunDirected}
 	for _, p := range core.Registry {
